@@ -5,6 +5,7 @@
   `x` and `y`: the cell's value, and the IDENTITY outside the relation's own variables.
 -/
 import Mwp.Lemmas.RelAlg
+import Mwp.Lemmas.RelFix
 namespace Mwp.Props.C10
 open Mwp
 
@@ -52,6 +53,22 @@ theorem results_well_formed (r1 r2 : Relation) (h1 : r1.WF) (h2 : r2.WF) :
          (v ∈ (Relation.sum r1 r2).vars ↔ v ∈ r1.vars ∨ v ∈ r2.vars) :=
   ⟨Relation.sum_wf r1 r2 h1 h2, Relation.composition_wf r1 r2 h1 h2,
    fun v => ⟨Relation.composition_vars_mem r1 r2 h1 h2 v, Relation.sum_vars_mem r1 r2 h1 h2 v⟩⟩
+
+/-- If the syntactic fixpoint loop of the code stops, its result means the reflexive-transitive
+    closure `I ⊕ M ⊕ M² ⊕ …` of the relation's matrix at EVERY choice vector (the closure is defined
+    on plain scalar matrices in Spec.Calculus, independently of polynomials). -/
+theorem fixpoint_is_closure (r f : Relation) (h : r.WF) (hf : Relation.fixpoint r = .ok f) (c : Choice) :
+    f.vars = r.vars ∧ f.WF ∧ f.toSMat c = Spec.SMat.closure (r.toSMat c) :=
+  Relation.fixpoint_toSMat r f h hf c
+
+/-- The while-loop correction acts pointwise as rule W with failure recorded as ∞: a cell's value
+    becomes ∞ iff it was `p`, or ∞, or `w` on the diagonal; everything else is unchanged. -/
+theorem while_correction_pointwise (r r' : Relation) (g g' : DG.Graph) (h : r.WF)
+    (hw : Relation.whileCorrection r g = .ok (r', g')) (c : Choice) :
+    r'.vars = r.vars ∧ r'.WF ∧
+    ∀ i j, i < r.vars.length → j < r.vars.length →
+      (Matrix.get r'.mat i j).evalD c = wCorr (i == j) ((Matrix.get r.mat i j).evalD c) :=
+  Relation.whileCorrection_cells r r' g g' h hw c
 
 -- non-vacuity: two relations over different, differently ordered variable lists
 example : (Relation.composition ⟨["b", "a"], [[Poly.unit, Poly.const .w], [Poly.zero, Poly.unit]]⟩
